@@ -179,6 +179,16 @@ def norm(s):
     return re.sub(r"\s+", "", s)
 
 
+def ancestors_until(x, stop):
+    """the ancestors of node x up to (excluding) `stop`"""
+    out = []
+    a = x.get("p")
+    while a is not None and a is not stop:
+        out.append(a)
+        a = a.get("p")
+    return out
+
+
 def find_fn(src, path):
     """path: 'name' (free fn) | 'Type::name' | '<Type as Trait>::name' (trait impl; compared
     whitespace-insensitively)"""
@@ -511,6 +521,9 @@ class Unit:
                 item.setdefault("iterloops", []).extend(full.split())
             elif name == "rlimit":
                 item["rlimit"] = int(full.strip())
+            elif name == "fmtarg":
+                a, b, c = [x.strip() for x in full.split(":", 2)]
+                item.setdefault("fmtargs", {})[norm(a)] = (b, c)
             elif name == "byval":
                 item.setdefault("byval", []).extend(full.split())
             elif name == "callfn":
@@ -959,12 +972,37 @@ class Gen:
 
     # ---- body rewriting ---------------------------------------------------------------------
     def rewrite_body(self, it, src, fn, body, ed):
+        self._fmtargs = it.get("fmtargs", {})
         self._pending = getattr(self, "_pending", [])
         self._placeholders = {}
         T = src.text
         loops = []  # loop sites in source order: (node, kind)
         closure_locals = {}  # name -> Local node (for R4)
 
+        # R47: a byte-string literal `b"..."` in a body -> generated function returning the same literal (`ensures r@ =~= seq![..]`)
+        for n in walk(body):
+            if n["k"] == "Lit" and n["a"]["lit"].startswith('b"'):
+                lit = n["a"]["lit"]
+                raw = eval(lit)
+                nm = "__bytes_lit_" + hashlib.sha256(lit.encode()).hexdigest()[:8]
+                if nm not in self._consts:
+                    self._consts.add(nm)
+                    seq = ", ".join(f"{b}u8" for b in raw)
+                    self._pending_global = getattr(self, "_pending_global", [])
+                    self._pending_global.append((f"// R47: byte-string literal {lit}\n#[verifier::external_body]\nfn {nm}() -> (r: &'static [u8]) ensures r@ =~= seq![{seq}] {{ {lit} }}\n",
+                                                 ("trusted", f"byte literal {lit}")))
+                ed.replace(n["s"], n["e"], nm + "()", ("rule", "R47"))
+                self.fired("R47")
+        # R46: `&X[..]` (the full range of a byte slice)  ->  __slice_full(X)   (X verbatim)
+        for n in walk(body):
+            if n["k"] == "Reference" and kid(n, "expr")["k"] == "Index" and any(o.startswith("slicefull=") for o in it["opts"]):
+                ix = kid(n, "expr")
+                rg = kid(ix, "index")
+                if rg["k"] == "Range" and kid(rg, "start") is None and kid(rg, "end") is None:
+                    X = kid(ix, "base")
+                    ed.replace(n["s"], X["s"], ([o[10:] for o in it["opts"] if o.startswith("slicefull=")] or ["__slice_full"])[0] + "(", ("rule", "R46"))
+                    ed.replace(X["e"], n["e"], ")", ("rule", "R46"))
+                    self.fired("R46")
         # R43: @letinit — initialiser replaced by a trusted helper expression
         for var, text in it.get("letinit", {}).items():
             hits = [n for n in walk(body) if n["k"] == "Local" and kid(n, "pat")["a"].get("ident") == var and kid(n, "init") is not None]
@@ -1120,11 +1158,20 @@ class Gen:
                         raise Inconclusive(f"unsupported construct: for-loop iterator at {src.rel}:{src.line_of(n['s'])}")
                     x_pat = T(p)
                     iv = f"__i{idx}"
-                    ed.replace(p["s"], p["e"], iv, ("rule", "R2"))
-                    ed.replace(itx["s"], itx["e"], f"0..{S}.len()", ("rule", "R2"))
-                    for t, o in pieces:
-                        ed.insert(b["s"], t, o)
-                    ed.insert(b["s"] + 1, f" let {x_pat} = &{S}[{iv}];", ("rule", "R2"))
+                    own_continue = any(x["k"] == "Continue" and not any(a is not n and a["k"] in ("ForLoop", "While", "Loop") for a in ancestors_until(x, n)) for x in walk(b))
+                    if own_continue:
+                        # Verus for-loops do not support `continue`: a `while` whose counter is advanced FIRST (as in R1)
+                        ed.replace(n["s"], b["s"], f"let mut __n{idx}: usize = 0;\n        while __n{idx} < {S}.len()", ("rule", "R2"))
+                        for t, o in pieces:
+                            ed.insert(b["s"], t, o)
+                        ed.insert(b["s"] + 1, f" let {iv} = __n{idx}; __n{idx} += 1; let {x_pat} = &{S}[{iv}];", ("rule", "R2"))
+                        loops[idx] = (n, "for")
+                    else:
+                        ed.replace(p["s"], p["e"], iv, ("rule", "R2"))
+                        ed.replace(itx["s"], itx["e"], f"0..{S}.len()", ("rule", "R2"))
+                        for t, o in pieces:
+                            ed.insert(b["s"], t, o)
+                        ed.insert(b["s"] + 1, f" let {x_pat} = &{S}[{iv}];", ("rule", "R2"))
                     self.fired("R2")
                 else:
                     raise Inconclusive(f"unsupported construct: for-loop iterator at {src.rel}:{src.line_of(n['s'])}")
@@ -1293,7 +1340,16 @@ class Gen:
                 else:
                     raise Inconclusive(f"unsupported construct: formatln! shape at {src.rel}:{src.line_of(n['s'])}")
                 name, call_args = self.format_helper(lit, [re.sub(r"^&\s*", "", a) for a in rest], src, n)
-                ed.replace(n["s"], n["e"], f"{name}({', '.join(call_args)})", ("rule", "R8'"))
+                anodes = args[1:] if len(args) > 1 else args
+                if call_args == ["&" + re.sub(r"^&\s*", "", T(a)) for a in anodes]:
+                    # glue only (see format!): a leading `&` of an argument is kept inside the argument, the helper takes `&(..)`
+                    amp = lambda a: "" if T(a).startswith("&") else "&"
+                    ed.replace(n["s"], anodes[0]["s"], f"{name}(" + amp(anodes[0]), ("rule", "R8'"))
+                    for a, b in zip(anodes, anodes[1:]):
+                        ed.replace(a["e"], b["s"], ", " + amp(b), ("rule", "R8'"))
+                    ed.replace(anodes[-1]["e"], n["e"], ")", ("rule", "R8'"))
+                else:
+                    ed.replace(n["s"], n["e"], f"{name}({', '.join(call_args)})", ("rule", "R8'"))
                 self.fired("R8'")
 
         # R16: `E.map_err(F)?`  ->  `(match E { Ok(v) => v, Err(e) => return Err(F(e)) })`   (F a path)
@@ -1720,9 +1776,9 @@ class Gen:
             nargs = 0
             opt_map = meth.endswith("?")  # `m? => f`: the call may be absent (code that only a repaired tree has)
             meth = meth.rstrip("?")
-            mm = re.match(r"^(\w+)/(\d+)$", meth)
+            mm = re.match(r"^(\w+)/(\d+)(\[.*\])?$", meth)
             if mm:
-                meth, nargs = mm.group(1), int(mm.group(2))
+                meth, nargs = mm.group(1) + (mm.group(3) or ""), int(mm.group(2))
             mm = re.match(r"^(\w+)\[(.*)\]$", meth)
             if mm:
                 meth, want_rc = mm.group(1), norm(mm.group(2))
@@ -1889,6 +1945,19 @@ class Gen:
             ed.insert(D["s"], f"{{ let {q} = &{S}[{iv}]; ", ("rule", "R2"))
             ed.replace(D["e"], end, " }", ("rule", "R2"))
             self.fired("R2")
+        elif rc["k"] == "MethodCall" and rc["a"]["method"] == "skip" and len(kids(rc, "arg")) == 1 and kids(rc, "arg")[0]["k"] == "Lit" \
+                and kid(rc, "receiver")["k"] == "MethodCall" and kid(rc, "receiver")["a"]["method"] == "iter":
+            # R2s: S.iter().skip(K).for_each(|x| D), K a literal  ->  for i in K..S.len() { let x = &S[i]; D }  (empty when K >= len)
+            S = T(kid(kid(rc, "receiver"), "receiver"))
+            K = T(kids(rc, "arg")[0])
+            iv = f"__i{idx}"
+            ed.replace(n["s"], D["s"], "", ("rule", "R2"))
+            ed.insert(D["s"], f"for {iv} in {K}..{S}.len()", ("rule", "R2"))
+            for t, o in pieces:
+                ed.insert(D["s"], t, o)
+            ed.insert(D["s"], f"{{ let {q} = &{S}[{iv}]; ", ("rule", "R2"))
+            ed.replace(D["e"], end, " }", ("rule", "R2"))
+            self.fired("R2s")
         else:
             raise Inconclusive(f"unsupported construct: for_each receiver at {src.rel}:{src.line_of(n['s'])}")
 
@@ -2003,7 +2072,13 @@ class Gen:
                 else:
                     raise Inconclusive(f"unsupported construct: format placeholder {{{inner}}}")
                 k = len(params)
-                if fmtspec == "":
+                fa = getattr(self, "_fmtargs", {}).get(norm(arg).lstrip("&*"))
+                if fmtspec == "" and fa:
+                    # `@fmtarg x : i32 : *x` — Display of an integer: its decimal text (uninterpreted `int_text`)
+                    params.append(f"a{k}: {fa[0]}"); call_args.append(fa[1]); pieces.append(("arg", f"int_text(a{k} as int)"))
+                    key_extra = getattr(self, "_fmt_key_extra", "") + f"|{k}:{fa[0]}"
+                    self._fmt_key_extra = key_extra
+                elif fmtspec == "":
                     params.append(f"a{k}: &str"); call_args.append(f"&{arg}"); pieces.append(("arg", f"a{k}@"))
                 elif fmtspec == "02x":
                     params.append(f"a{k}: u8"); call_args.append(f"{arg}"); pieces.append(("arg", f"hex2(a{k})"))
@@ -2014,7 +2089,8 @@ class Gen:
                 cur += text[i]; i += 1
         if cur:
             pieces.append(("lit", cur))
-        key = hashlib.sha256(lit.encode()).hexdigest()[:8]
+        key = hashlib.sha256((lit + getattr(self, "_fmt_key_extra", "")).encode()).hexdigest()[:8]
+        self._fmt_key_extra = ""
         name = f"__fmt_{key}"
         if name not in self._consts:
             self._consts.add(name)
@@ -2056,7 +2132,7 @@ class Gen:
         # consecutive @fn items of the same trait impl are emitted inside ONE impl block
         fnitems = self.unit.items
         for idx, it in enumerate(fnitems):
-            if it["kind"] != "fn" or "free" in it["opts"] or "inherent" in it["opts"] or it["external"] and it.get("imported_from"):
+            if it["kind"] != "fn" or "free" in it["opts"] or "inherent" in it["opts"]:
                 continue
             try:
                 srcx = Src.get(it["rel"])
